@@ -29,7 +29,7 @@ ASSUMPTIONS = ["PARTIAL: the general round-trip theorem parse(print p) = p is no
 
 
 def correspond(run):
-    n = 150 if run.tier == "quick" else 1500
+    n = 150 if run.depth == "quick" else 1500
     d = os.path.join(vlib.BUILD, "tmp", "json_%d" % os.getpid())
     rc, js, out, err = vlib.harness(["json-cases", "--seed", run.seed, "--n", n, "--dir", d], timeout=1800)
     try:
